@@ -67,13 +67,27 @@ def main():
     for f in ("patch.diff", "demo.py"):
         shutil.copy(os.path.join(cdir, f), os.path.join(dst, f))
     meta = json.load(open(os.path.join(cdir, "meta.json")))
+    prev = os.path.join(dst, "meta.json")
+    history = []
+    if os.path.exists(prev):
+        try:
+            old = json.load(open(prev))
+            history = old.get("history", [])
+            if "result" in old:
+                history.append({"quick": old["result"]["quick"], "thorough": old["result"]["thorough"], "verif_commit": old["result"].get("verif_commit")})
+            if "tests" in old.get("result", {}).get("raw", {}) and "tests" not in res:
+                res["tests"] = old["result"]["raw"]["tests"]
+        except Exception:
+            pass
     q = res.get(f"{pid}:quick", {}); t = res.get(f"{pid}:thorough", {})
     def verdict(r):
         if not r: return "not run"
         if r["exit"] == 1: return "CAUGHT" + (" (no-failing-input-found)" if r["no_failing_input"] and r["violations"] == 1 else " with replay")
         return "missed" if r["exit"] == 0 else f"error exit {r['exit']}"
     meta["result"] = {"quick": verdict(q), "thorough": verdict(t) if t else ("n/a (quick caught it)" if q.get("exit") == 1 else "not run"),
-                      "tripped": "; ".join((q.get("first") or t.get("first") or [""])[:1]), "raw": res}
+                      "tripped": "; ".join((q.get("first") or t.get("first") or [""])[:1]), "raw": res,
+                      "verif_commit": subprocess.run("git -C /verif rev-parse --short HEAD", shell=True, capture_output=True, text=True).stdout.strip()}
+    meta["history"] = history
     json.dump(meta, open(os.path.join(dst, "meta.json"), "w"), indent=1)
     print("stored", dst, meta["result"]["quick"], "/", meta["result"]["thorough"])
 
